@@ -40,7 +40,7 @@ def oracle_cases(tier, rng):
         for J in (1, 2, 3):
             for (H, W) in [(8, 8), (16, 24), (8 * 2 ** (J - 1), 4 * 2 ** (J - 1))]:
                 if H % 2 ** J or W % 2 ** J: continue
-                for mode in ('periodization', 'periodic'):
+                for mode in ('periodization', 'periodic', 'per'):
                     yield dict(check='pywt', wave=wn, J=J, H=H, W=W, mode=mode, seed=int(rng.integers(1 << 30)))
                 yield dict(check='shift', wave=wn, J=J, H=H, W=W, mode='periodization', sh=[int(rng.integers(H)), int(rng.integers(W))], seed=int(rng.integers(1 << 30)))
     for (H, W) in [(5, 7), (6, 9)]:
